@@ -344,8 +344,10 @@ class Engine(ExprMixin, CallMixin, StmtMixin):
             post_prev = [self.spec_bool(e, s_prev) for e in l.ensures]
             st.assume(z3.Implies(z3.And(n.t > b.t, zand(*pre_prev)), zand(*post_prev)))
         for j, e in enumerate(l.ensures):
-            self.obligations.append(Obligation(self.cur_name, "lemma", "E%d" % j, st.conds(), self.spec_bool(e, st),
-                                               "lemma %s: %s" % (l.name, e), 0, inputs, 0))
+            ob = Obligation(self.cur_name, "lemma", "E%d" % j, st.conds(), self.spec_bool(e, st),
+                            "lemma %s: %s" % (l.name, e), 0, inputs, 0)
+            ob.reveal = tuple(l.reveal)
+            self.obligations.append(ob)
 
 
 # -------------------------------------------------------------------------------------------------------------
